@@ -412,6 +412,49 @@ example : ∀ k ∈ ([((false : Bool), P.leaf "a" ⟨0,1⟩), (false, P.leaf "b"
   simp only [List.map_cons, List.map_nil, List.mem_cons, List.not_mem_nil, or_false] at hk
   rcases hk with rfl | rfl | rfl <;> simp [evalPt]
 
+/-! ### … so the configurator's rule classes have the truth functions of their plog counterparts (C04 for cc classes) -/
+
+theorem okL_mem (σ) : ∀ as : List Ast, C04.OkL σ as → ∀ a ∈ as, C04.Ok σ a
+  | [], _, a, h => by simp at h
+  | x :: as, h, a, ha => by
+      have ⟨h1, h2⟩ : C04.Ok σ x ∧ C04.OkL σ as := by simpa [C04.OkL] using h
+      rcases List.mem_cons.1 ha with rfl | ha
+      · exact h1
+      · exact okL_mem σ as h2 a ha
+
+theorem buildL_snd' : ∀ as : List Ast, (Ast.buildL as).map (·.2) = as.map Ast.build
+  | [] => by simp [Ast.buildL]
+  | a :: as => by simp [Ast.buildL, buildL_snd' as]
+
+theorem built_nonneg (σ) (as : List Ast) (h : C04.OkL σ as) : ∀ k ∈ (Ast.buildL as).map (·.2), 0 ≤ evalPt σ k := by
+  rw [buildL_snd']
+  intro k hk
+  obtain ⟨a, ha, rfl⟩ := List.mem_map.1 hk
+  have ⟨h1, _, h3, _⟩ := C04.build_inv σ a (okL_mem σ as h a ha)
+  rw [h1]; rcases h3 with h | h <;> omega
+
+/-- `cc.Any(*args, default=…)` over well-formed arguments: true iff at least one argument is true -/
+theorem ccAny_truth (σ : String → Int) (as : List Ast) (dflt) (oid) (h : C04.OkL σ as) :
+    evalPt σ (Ast.ccAny as dflt oid).build = if C04.truthSum σ as ≥ 1 then 1 else 0 := by
+  have ⟨i1, _, _, _⟩ := C04.buildL_inv σ as h
+  simp only [Ast.build]
+  rw [evalPt_mkCcAny σ _ _ _ (built_nonneg σ as h), i1]
+
+/-- `cc.Xor(*args, default=…)` over well-formed arguments: true iff exactly one argument is true -/
+theorem ccXor_truth (σ : String → Int) (as : List Ast) (dflt) (oid) (h : C04.OkL σ as) :
+    evalPt σ (Ast.ccXor as dflt oid).build = if C04.truthSum σ as = 1 then 1 else 0 := by
+  have ⟨i1, _, _, _⟩ := C04.buildL_inv σ as h
+  simp only [Ast.build]
+  rw [evalPt_mkCcXor σ _ _ _ (built_nonneg σ as h), i1]
+
+/-- `StingyConfigurator(*rules)` over well-formed, pairwise distinct rules: holds iff every rule holds -/
+theorem stingy_truth (σ : String → Int) (as : List Ast) (oid) (h : C04.OkL σ as)
+    (hd : distinctCount (Ast.buildL as) = as.length) :
+    evalPt σ (Ast.stingy as oid).build = if C04.truthSum σ as = as.length then 1 else 0 := by
+  have ⟨i1, _, i3, i4⟩ := C04.buildL_inv σ as h
+  simp only [Ast.build]
+  rw [C04.evalPt_mkAll σ _ oid .stingy (by rw [hd, i4]) (by rw [i1, i4]; exact i3), i1, i4]
+
 end ccsemantics
 
 end Puan.C14
